@@ -219,11 +219,18 @@ def gen_cases(rng, tier, scale):
     # block was written)
     npb = (120 if tier == 'quick' else 3000) * scale
     for k in range(npb):
-        parts, main = pb_gen(rng)
-        try:
-            exp = ('ok', pb_eval(parts, main))
-        except PBMissing:
-            exp = ('err', 'PartialNotFound', x('@partial-block'))
+        # repeated uses multiply: keep the expected output small (the model's writer is a list of chunks and the
+        # point is the binding, not the volume)
+        for _try in range(50):
+            parts, main = pb_gen(rng)
+            try:
+                exp = ('ok', pb_eval(parts, main))
+            except PBMissing:
+                exp = ('err', 'PartialNotFound', x('@partial-block'))
+            if exp[0] != 'ok' or len(exp[1]) <= 600:
+                break
+        else:
+            continue
         cases.append(rcase(f'pb{k}', main, {}, partials=parts, entry=0, kind='fixed', exp=exp, grp=f'pb{k}', tags=['pbnest']))
     # witness of the repaired finding F21 (two levels of forwarding recursed without bound)
     cases.append(rcase('f21w', '{{#> l2}}X{{/l2}}', {}, partials={'l2': '<{{#> l3}}{{#> l3}}{{> @partial-block}}{{/l3}}{{/l3}}>', 'l3': '[{{> @partial-block}}]'},
